@@ -214,6 +214,9 @@ func (p *parser) unary() *Expr {
 	if p.accept("-") {
 		return &Expr{Op: "un", Name: "-", A: []*Expr{p.unary()}}
 	}
+	if p.accept("*") {
+		return &Expr{Op: "un", Name: "*", A: []*Expr{p.unary()}}
+	}
 	return p.postfix()
 }
 
@@ -444,6 +447,24 @@ func (ev *evalEnv) eval(e *Expr) tv {
 			return mathBool("(not " + ev.evalBool(e.A[0]) + ")")
 		case "-":
 			return mathInt("(- " + ev.evalInt(e.A[0]) + ")")
+		case "*":
+			// load through a pointer to a non-struct value (*[]byte, *int ...) in the evaluation state
+			x := ev.eval(e.A[0])
+			if x.t == nil {
+				ev.fail("dereference of untyped value")
+			}
+			pt, ok := x.t.Underlying().(*types.Pointer)
+			if !ok {
+				ev.fail("dereference of non-pointer %s", x.t)
+			}
+			if kindOf(pt.Elem()) == KStruct {
+				return x
+			}
+			saved := c.st
+			c.st = ev.st
+			v := c.loadNoInv(x.v, pt.Elem())
+			c.st = saved
+			return tv{v: v, t: pt.Elem()}
 		}
 	case "cond":
 		cnd := ev.evalBool(e.A[0])
